@@ -295,6 +295,7 @@ func c15Run(c *core.Ctx, b core.Batch) {
 	json.Unmarshal(b.Params, &p)
 	switch p.Kind {
 	case "failsub":
+		c15ActiveAtShutdown(c) // first: it counts listener goroutines in a process that has had no other query events
 		c15FailSub(c, p)
 		c15Restart(c)
 		return
@@ -894,6 +895,84 @@ func c15Restart(c *core.Ctx) {
 			}
 		}
 		rg.stop()
+	}
+}
+
+// c15ActiveAtShutdown: query events that are still active when the service is shut
+// down must still be released once their duration has passed (listener goroutine gone),
+// whether or not the service is served again.
+func c15ActiveAtShutdown(c *core.Ctx) {
+	rigInstall()
+	for round := 0; round < 4; round++ {
+		// let listeners of earlier scenarios end
+		base := -1
+		for i := 0; i < 200; i++ {
+			if base = mon.CountGoroutines("go-res.(*queryEvent).startQueryListener"); base == 0 {
+				break
+			}
+			time.Sleep(5 * time.Millisecond)
+		}
+		if base != 0 {
+			c.Inconclusive("active-at-shutdown: listeners of earlier query events still present")
+			return
+		}
+		rg := newRig("svc", func(s *res.Service) {
+			s.SetQueryEventDuration(60 * time.Millisecond)
+			s.Handle("q.$id", res.GetCollection(func(r res.CollectionRequest) { r.NotFound() }))
+		})
+		if err := rg.start(); err != nil {
+			c.Inconclusive("start: " + err.Error())
+			return
+		}
+		const n = 5
+		var nils int32
+		for k := 0; k < n; k++ {
+			done := make(chan struct{})
+			rg.S.With(fmt.Sprintf("svc.q.%d", k), func(r res.Resource) {
+				r.QueryEvent(func(qr res.QueryRequest) {
+					if qr == nil {
+						atomic.AddInt32(&nils, 1)
+					}
+				})
+				close(done)
+			})
+			waitCh(done, 5*time.Second)
+		}
+		active := mon.CountGoroutines("go-res.(*queryEvent).startQueryListener")
+		if err := rg.stop(); err != nil {
+			c.Inconclusive("stop: " + err.Error())
+			return
+		}
+		restarted := round%2 == 1
+		if restarted {
+			if err := rg.restart(); err != nil {
+				c.Inconclusive("restart: " + err.Error())
+				return
+			}
+		}
+		// 10 durations later every listener must be gone
+		left := -1
+		for i := 0; i < 120; i++ {
+			if left = mon.CountGoroutines("go-res.(*queryEvent).startQueryListener"); left == 0 {
+				break
+			}
+			time.Sleep(5 * time.Millisecond)
+		}
+		c.Eval(1)
+		c.Obs("active_at_shutdown_rounds", 1)
+		c.Max("listeners_active_at_shutdown", int64(active))
+		desc := map[string]interface{}{"query_events_active_at_shutdown": active, "served_again": restarted, "nil_callbacks": atomic.LoadInt32(&nils)}
+		if left != 0 {
+			c.Violation("C15/leak:listener-after-shutdown", fmt.Sprintf("%d query event listener goroutines are still alive 10 durations after the service was shut down with %d active query events (served again: %v)", left, active, restarted), desc)
+		}
+		if restarted {
+			time.Sleep(10 * time.Millisecond)
+			if got := atomic.LoadInt32(&nils); got != n && left == 0 {
+				c.Violation("C15/nil-count:after-restart", fmt.Sprintf("service shut down with %d active query events and served again within their duration: %d callbacks got the final nil, want %d", n, got, n), desc)
+			}
+			rg.stop()
+		}
+		c.Distinct(fmt.Sprintf("active-at-shutdown/%d", round))
 	}
 }
 
